@@ -289,6 +289,16 @@ func (t *Task) Sleep(d int64) {
 //
 //go:norace
 func HookYield(site string, obj interface{}) {
+	if LockCalib.On && lastMu != nil {
+		switch site {
+		case "registry.copy": // inside Compile's copy loop: is the read lock held?
+			LockCalib.ReadSeen = true
+			LockCalib.ReadHeld = !probe(lastMu, true)
+		case "registry.write": // inside the registration loop: is the write lock held?
+			LockCalib.WriteSeen = true
+			LockCalib.WriteHeld = !probe(lastMu, false)
+		}
+	}
 	s := active
 	if s == nil || s.cur == nil {
 		Ref.Yields++
@@ -305,6 +315,7 @@ func HookYield(site string, obj interface{}) {
 //
 //go:norace
 func HookLockWait(mu *sync.RWMutex, write bool) {
+	lastMu = mu
 	s := active
 	if s == nil {
 		return
@@ -314,6 +325,14 @@ func HookLockWait(mu *sync.RWMutex, write bool) {
 		return
 	}
 	t.Yield(SiteLockWait, nil)
+	// Calibration (LockCalib) has established whether the code that follows
+	// this hook really holds the lock at the yield points inside the
+	// critical section. If it does not (the locking was dropped or narrowed),
+	// blocking here would hide exactly the interleavings that the missing
+	// lock admits.
+	if (write && LockCalib.WriteSeen && !LockCalib.WriteHeld) || (!write && LockCalib.ReadSeen && !LockCalib.ReadHeld) {
+		return
+	}
 	for {
 		if probe(mu, write) {
 			return
@@ -559,6 +578,18 @@ func (s *Sched) probe(m msg) {
 		s.lastArgs[m.obj] = id
 	}
 }
+
+// LockCalib is filled by a calibration pass at process start (run package):
+// one package-level registration and one Compile executed by the controller
+// alone, during which the hooks inside the two critical sections probe the
+// real mutex.
+var LockCalib struct {
+	On                   bool
+	ReadSeen, ReadHeld   bool
+	WriteSeen, WriteHeld bool
+}
+
+var lastMu *sync.RWMutex
 
 // ---- reference-mode counters -------------------------------------------------
 
